@@ -120,6 +120,9 @@ def cmd_check(args):
                 except ExtractError as e:
                     if not vac:
                         undecided.append(dict(unit=u.name, cfg=cfg, kind='extract', message=str(e)))
+                except Exception as e:   # a generator bug on unexpected source text is a tool limit, never a verdict
+                    if not vac:
+                        undecided.append(dict(unit=u.name, cfg=cfg, kind='extract', message='generator error: %r' % (e,)))
 
     seeds = [None] if tier == 'quick' else [None, seed + 1]
 
